@@ -109,13 +109,15 @@ pub fn glob_match(pat: &str, text: &str) -> bool {
     let (mut pi, mut ti) = (0usize, 0usize);
     let (mut star, mut mark) = (None, 0usize);
     while ti < t.len() {
-        if pi < p.len() && (p[pi] == '?' || p[pi] == t[ti]) {
-            pi += 1;
-            ti += 1;
-        } else if pi < p.len() && p[pi] == '*' {
+        // Test the pattern's `*` before the literal comparison: otherwise a text that
+        // itself contains `*` consumes the pattern's star as a literal character.
+        if pi < p.len() && p[pi] == '*' {
             star = Some(pi);
             mark = ti;
             pi += 1;
+        } else if pi < p.len() && (p[pi] == '?' || p[pi] == t[ti]) {
+            pi += 1;
+            ti += 1;
         } else if let Some(s) = star {
             pi = s + 1;
             mark += 1;
